@@ -525,3 +525,19 @@ _PROOF_GEN = '        return tuple(self._iter_proof_nodes(node, trie_key))\n\n  
 V("silent-proof-walker-generator", "C03", HX, _PROOF_REC, _PROOF_GEN, expect="silent", props=["C03", "C07", "C01", "C18"])
 V("c03-proof-generator-leaf-not-yielded", "C03", HX, _PROOF_REC, '        return tuple(self._iter_proof_nodes(node, trie_key))\n\n    def _iter_proof_nodes(self, node, trie_key):\n        """\n        Yield the nodes of the proof for ``trie_key``, starting with ``node`` and\n        walking down towards the key. A blank node is never part of a proof.\n        """\n        unproven_key = trie_key\n        while True:\n            node_type = get_node_type(node)\n            if node_type == NODE_TYPE_BLANK:\n                return\n\n            if node_type == NODE_TYPE_LEAF:\n                return\n\n            yield node\n            if node_type == NODE_TYPE_EXTENSION:\n                current_key = extract_key(node)\n                if not key_starts_with(unproven_key, current_key):\n                    return\n                next_node_pointer = node[1]\n                newly_proven_len = len(current_key)\n            elif node_type == NODE_TYPE_BRANCH:\n                if not unproven_key:\n                    return\n                next_node_pointer = node[unproven_key[0]]\n                newly_proven_len = 1\n            else:\n                raise Exception("Invariant: This shouldn\'t ever happen")\n\n            node = self.get_node(next_node_pointer)\n            unproven_key = unproven_key[newly_proven_len:]\n\n', rule="TS5")
 V("c03-proof-generator-extension-consumes-one", "C03", HX, _PROOF_REC, '        return tuple(self._iter_proof_nodes(node, trie_key))\n\n    def _iter_proof_nodes(self, node, trie_key):\n        """\n        Yield the nodes of the proof for ``trie_key``, starting with ``node`` and\n        walking down towards the key. A blank node is never part of a proof.\n        """\n        unproven_key = trie_key\n        while True:\n            node_type = get_node_type(node)\n            if node_type == NODE_TYPE_BLANK:\n                return\n\n            yield node\n\n            if node_type == NODE_TYPE_LEAF:\n                return\n            elif node_type == NODE_TYPE_EXTENSION:\n                current_key = extract_key(node)\n                if not key_starts_with(unproven_key, current_key):\n                    return\n                next_node_pointer = node[1]\n                newly_proven_len = len(current_key)\n            elif node_type == NODE_TYPE_BRANCH:\n                if not unproven_key:\n                    return\n                next_node_pointer = node[unproven_key[0]]\n                newly_proven_len = 1\n            else:\n                raise Exception("Invariant: This shouldn\'t ever happen")\n\n            node = self.get_node(next_node_pointer)\n            unproven_key = unproven_key[1:]\n\n', rule="TS5")
+
+# fail-closed model checks: constructs whose effect on the classes the rules look at cannot be read off the definitions
+V("adv-module-level-exec", "C14", SM, "class SparseMerkleTree:", "exec('pass')\n\n\nclass SparseMerkleTree:", expect="inconclusive")
+V("adv-monkeypatched-method", "C01", HX, "class HexaryTrie:", "def _fast_exists(self, key):\n    return True\n\n\nclass HexaryTrie:", expect="inconclusive",
+  edits=[(HX, "class HexaryTrie:", "def _fast_exists(self, key):\n    return True\n\n\nclass HexaryTrie:"),
+         (HX, "    def _get_proof(self, node, trie_key, proven_len=0, last_proof=tuple()):", "    def _get_proof(self, node, trie_key, proven_len=0, last_proof=tuple()):"),
+         (BN, "class BinaryTrie:", "import trie.hexary\n\ntrie.hexary.HexaryTrie.exists = trie.hexary._fast_exists\n\n\nclass BinaryTrie:")])
+V("adv-subclass-override", "C01", HX, "class HexaryTrie:", "class HexaryTrie:", expect="inconclusive",
+  edits=[(IT, "class NodeIterator:", "from trie.hexary import HexaryTrie as _HT\n\n\nclass _CachedTrie(_HT):\n    def get_node(self, node_hash):\n        return super().get_node(node_hash)\n\n\nclass NodeIterator:")])
+V("adv-unknown-decorator", "C01", HX, "    def _set(self, node, trie_key, value):", "    @eth_utils.curry\n    def _set(self, node, trie_key, value):", expect="inconclusive",
+  edits=[(HX, "    def _set(self, node, trie_key, value):", "    @eth_utils.curry\n    def _set(self, node, trie_key, value):"), (HX, "import contextlib\n", "import contextlib\nimport eth_utils\n")])
+V("adv-global-statement", "C01", HX, "    def get_node(self, node_hash):\n", "    def get_node(self, node_hash):\n        global _LAST\n        _LAST = node_hash\n", expect="inconclusive")
+V("adv-class-level-write-in-reader", "C01", HX, "    def get_node(self, node_hash):\n", "    def get_node(self, node_hash):\n        type(self)._last = node_hash\n", rule="EFF4")
+V("adv-class-level-memo-read", "C01", HX, "    def get_node(self, node_hash):\n", "    def get_node(self, node_hash):\n        if HexaryTrie._memo.get(node_hash) is not None:\n            return HexaryTrie._memo[node_hash]\n", rule="RSRC",
+  edits=[(HX, "    def get_node(self, node_hash):\n", "    def get_node(self, node_hash):\n        if HexaryTrie._memo.get(node_hash) is not None:\n            return HexaryTrie._memo[node_hash]\n"),
+         (HX, "class HexaryTrie:\n", "class HexaryTrie:\n    _memo = {}\n")])
